@@ -178,8 +178,8 @@ def validFromTs (codec : Bytes → GoRes Int) (prev : Option Bytes) (ts : Nat) (
     match mft with
     | .ok m =>
       if m < 0 then .ok (ts, false)
-      else if wrapInt64 (m + 1) > maxUint32 then .ok (0, true)   -- int64 addition
-      else .ok (toUint32 (wrapInt64 (m + 1)), false)
+      else if m ≥ maxUint32 then .ok (0, true)       -- "maxFinalizedTimestamp is too large" (no int64 overflow)
+      else .ok (toUint32 (m + 1), false)
     | .err _ => .ok (0, true)
     | .panic => .panic
 
@@ -206,5 +206,30 @@ def checkLen {RF : Type} (maxLen : Nat) (rf : RF) (report : Bytes) : GoRes (Opti
   if !decide (report.length ≤ maxLen) then .err "too-long"
   else if report.length = 0 then .err "zero-length"
   else .ok (some (rf, report))
+
+/-- the body of `reportingPlugin.Report` after parsing — textually the same in the four versions
+    (facts `mercury_vN_Report_cmps`, `mercury_vN_Report_calls`): observation count checks,
+    `buildReportFields`, the overlap test, `validateReport`, `BuildReport`, the length checks.
+    `ok none` = `(false, nil, nil)`; `ok (some (rf, b))` = `(true, b, nil)` with `rf` the fields
+    handed to `BuildReport`. -/
+def reportCore {RF : Type} (f nPaos : Nat) (built : GoRes (RF × List String)) (overlap : RF → Bool)
+    (validate : RF → List String) (codec : Codec RF) : GoRes (Option (RF × Bytes)) :=
+  if nPaos = 0 then .err "zero-valid"
+  else if !decide (f + 1 ≤ nPaos) then .err "too-few"
+  else
+    match built with
+    | .panic => .panic
+    | .err e => .err e
+    | .ok (rf, errs) =>
+      if !errs.isEmpty then .err (errClass "build" errs)
+      else if overlap rf then .ok none
+      else
+        let verrs := validate rf
+        if !verrs.isEmpty then .err (errClass "validate" verrs)
+        else
+          match codec.build rf with
+          | .panic => .panic
+          | .err e => .err e
+          | .ok b => checkLen codec.maxLen rf b
 
 end DSV.Mercury
